@@ -182,7 +182,7 @@ func main() {
 		scenario("3prod-same-dir+2fetch", script{[][]string{{"d1/a"}, {"d1/b"}, {"d1/c"}}, []int{1, 1}}),
 		scenario("1prod(3 dirs)+3fetch", script{[][]string{{"d1/a", "d2/a", "d3/a"}}, []int{1, 1, 1}}),
 	}
-	smode.Main(c, scs, 1, 2,
+	smode.Main(c, scs, 1, 3,
 		"Scenarios on the real x/watcher.Changes (rewritten onto vrt): 1-3 producer threads calling FileChanged on colliding and distinct directories, 2-3 consumer threads calling Fetch once or twice.",
 		[]string{"oracle: porcupine linearizability of the call/return history against setmodel (FileChanged adds its directory, Fetch returns and removes a pending one) = returned by a later fetch, at most once per report, never unreported; liveness: at quiescence no fetcher sleeps while the real `changed` map is non-empty"})
 }
